@@ -289,6 +289,11 @@ func genHttp2Conv(r *Rand, tier string, emit func(sx.Sx)) {
 				s := live[r.Intn(len(live))]
 				out = append(out, streams[s][idx[s]])
 				idx[s]++
+				if idx[s] == len(streams[s]) && r.Chance(12) {
+					// RST_STREAM on a stream this half has just completed: a client cancelling a request whose
+					// response is on its way, a server's RST_STREAM(NO_ERROR) after a complete early response
+					out = append(out, sx.L(sx.A("o"), sx.A("rst"), sx.N(2*s+1)))
+				}
 				if r.Chance(15) {
 					kinds := []string{"settings", "ping", "window", "priority", "rst", "goaway", "table0", "table64", "settings-misc"}
 					k := kinds[r.Intn(len(kinds))]
